@@ -148,6 +148,20 @@ static void enter_namespace(void)
 	g_ns_ok = 1;
 }
 
+static void clean_dev_shm(void)
+{
+	DIR *d = opendir("/dev/shm");
+	struct dirent *e;
+	if (!d) return;
+	while ((e = readdir(d))) {
+		char p[600];
+		if (!strcmp(e->d_name, ".") || !strcmp(e->d_name, "..")) continue;
+		snprintf(p, sizeof p, "/dev/shm/%s", e->d_name);
+		if (unlink(p) != 0) { char cmd[700]; snprintf(cmd, sizeof cmd, "rm -rf '%s'", p); if (system(cmd)) {} }
+	}
+	closedir(d);
+}
+
 static void rm_rf(const char *path)
 {
 	char cmd[700];
@@ -339,6 +353,7 @@ static void worker_main(int k, uint64_t start, uint64_t total, uint64_t nenum, d
 		w->current = i;
 		reset_stderr_file();
 		if (verif_fork_per_case) {
+			if (g_ns_ok) clean_dev_shm();	/* what a failed or killed case left behind must not reach the next one */
 			run_forked(buf, n, &r, &CR[k], 0);
 		} else {
 			verif_case(buf, n, &r);
